@@ -264,7 +264,8 @@ CHECKS["C19"] = dict(
     units=[dict(pkg="cluster", test="TestVerifC19Bus", shards_quick=8, shards_thorough=16, budget_quick=200, budget_thorough=1500),
            dict(pkg="app", test="TestVerifC19Mesh", shards_quick=8, shards_thorough=16, budget_quick=200, budget_thorough=1500),
            dict(pkg="cluster", test="TestVerifC19TLS", gomaxprocs=1, shards_quick=1, shards_thorough=1, budget_quick=60, budget_thorough=300),
-           dict(pkg="cluster", test="TestVerifC19TLSPool", shards_quick=1, shards_thorough=1, budget_quick=60, budget_thorough=300)],
+           dict(pkg="cluster", test="TestVerifC19TLSPool", shards_quick=1, shards_thorough=1, budget_quick=60, budget_thorough=300),
+           dict(pkg="cluster", test="TestVerifC19Sizes", shards_quick=1, shards_thorough=1, budget_quick=120, budget_thorough=300)],
 )
 
 CHECKS["C08"] = dict(
